@@ -74,7 +74,7 @@ def main():
             if not cfg.endswith(".cfg"):
                 continue
             module = "_".join(cfg.split("_")[:2])
-            r = runner.run_tlc("selftest-mut", module + ".tla", os.path.join("mutants", cfg), workers=8, mem="6g", queue="DiskStateQueue", accel=False)
+            r = runner.run_tlc("selftest-mut", module + ".tla", os.path.join("mutants", cfg), workers=8, mem="6g", queue="DiskStateQueue", accel=(module == "MC_Peg"))
             if not r["violated"]:
                 raise ToolError("mutant specification %s was NOT refuted by TLC" % cfg)
             log("selftest: mutant %s refuted (%s)" % (cfg, ", ".join(r["violated"])))
